@@ -985,7 +985,6 @@ func checkVersionedImports(c *Ctx, rule string, gen *packages.Package) {
 		"ImportsFunc emits a bare import for a path ending in /vN: goimports resolves its package name from the target directory, so the first generation into an empty target drops the import (code that does not compile) and a second run differs")
 }
 
-
 // checkValidationLifts: HasValidations makes the templates emit a Validate call on the member.
 // io.ReadCloser aliases (streams) and interface{} have no Validate method: every condition that
 // lifts HasValidations for a $ref'ed / aliased / complex member and excludes interfaces must exclude
